@@ -17,6 +17,12 @@ Definition hist : list op :=
    ORegister 0 0; ORegister 1 0; ORegister 2 1; OCall 0 false;
    ODeregister 0; ORegister 0 1; OSetTrain 1 false; ODelete 2; OSetExec 1 false true; OCall 1 true].
 
+(* two hooks in the same dictionary, the second one prepended: dispatch order is [1; 0] *)
+Definition hist2 : list op :=
+  [ONew (mkCfg KHook true false false false false false false 0) true true;
+   ONew (mkCfg KCtx true false true false false false false 0) true true;
+   ORegister 0 0; ORegister 1 0].
+
 Theorem nonvacuous :
   forallb safe_op hist = true /\
   (let a := arun (a0 2) hist in
@@ -25,11 +31,15 @@ Theorem nonvacuous :
    a_fires_pre a 2 1 = false) /\
   snd (fst (step (fst (run (w0 2) hist)) (OCall 1 true))) = [EFire 0 0; EFwd 1; EFire 0 1] /\
   snd (fst (step (fst (run (w0 2) hist)) (OCall 0 false))) = [EFwd 0; EFire 1 2] /\
+  spec_call (orun (o0 2) hist) 1 true = [EFire 0 0; EFwd 1; EFire 0 1] /\
+  (forallb safe_op hist2 = true /\ ord_lst (o_ord (orun (o0 1) hist2)) 0 true = [1; 0] /\
+   snd (fst (step (fst (run (w0 1) hist2)) (OCall 0 false))) = [EFire 1 0; EFire 0 0; EFwd 0]) /\
   (ord_ok (@PTwo RN) /\ 0 < 1 / 2 /\ 1 / 2 <= pnorm RN PTwo [3; 4; 0])%R /\
   (clamping_new RN (Some (-1)%R) (Some 1%R) = None).
 Proof.
   split; [reflexivity|]. split; [vm_compute; repeat split; reflexivity|].
-  split; [reflexivity|]. split; [reflexivity|]. split.
+  split; [reflexivity|]. split; [reflexivity|]. split; [reflexivity|].
+  split; [repeat split; reflexivity|]. split.
   - split; [exact I|]. split; [lra|]. simpl. rn_simpl.
     replace (3 * 3 + (4 * 4 + (0 * 0 + 0)))%R with (Rsqr 5) by (unfold Rsqr; ring).
     rewrite sqrt_Rsqr by lra. lra.
